@@ -165,7 +165,7 @@ def run(spec, out):
         return Quantity(rng.choice([1, 2.5, -3, 1000]), value(t))
 
     ops = ["bare_prefix", "as_ratio", "format_ratio", "qformat_ratio", "str", "pretty", "html", "qhtml", "parse_str", "qparse_str", "arith", "root", "in_unit", "eq", "lt",
-           "json", "pickle", "cli", "level", "quantify", "qpretty", "add", "render_other"]
+           "json", "pickle", "cli", "level", "quantify", "qpretty", "add", "render_other", "other_operands", "other_operands"]
     if spec.get("define_dimension"):
         ops += ["define_dimension"]
     foreign = list(spec.get("foreign_pickles", []))
@@ -204,6 +204,27 @@ def run(spec, out):
         elif op == "arith":
             a, c = value(t), value(rand_term(2))
             rng.choice([lambda: a * c, lambda: a / c, lambda: c / a, lambda: (a * c) ** -2, lambda: (1 * a) * (2 * c), lambda: (3 * a) / (2 * c)])()
+        elif op == "other_operands":
+            # every binary operator with a plain number, a prefix, a quantity or a level on either side of a unit: most are
+            # refused (TypeError) today; whichever answers, answers with units whose dimension is the product of their factors'
+            # (the registration monitor and the table sweep judge what they leave behind)
+            from decimal import Decimal as _D
+            import operator as _o
+            a = value(t)
+            other = rng.choice([60, 2.5, _D("1.5"), 6.02214076e23, m.Prefix._by_name[rng.choice(pools.si_prefixes)], q_of(rand_term(2)), True, -1])
+            fn = rng.choice([_o.truediv, _o.mul, _o.add, _o.sub, _o.pow, _o.floordiv, _o.mod, _o.matmul])
+            for x, y in ((other, a), (a, other)):
+                try:
+                    r = fn(x, y)
+                    count(f"other_operand_operations/{fn.__name__}/answered")
+                    u = getattr(r, "unit", r)
+                    if isinstance(u, Unit):
+                        want = model_dim(u.factors) if not (len(u.factors) == 1 and next(iter(u.factors)) is u) else tuple(u.dimension.exponents)
+                        if tuple(u.dimension.exponents) != want:
+                            violation("C01:operator-result-with-wrong-dimension", f"{x!r} {fn.__name__} {y!r} gave {r!r}: its unit reports {u.dimension}, the factors multiply to {want}",
+                                      {"operator": fn.__name__})
+                except Exception as e:
+                    count(f"other_operand_operations/{fn.__name__}/{type(e).__name__}")
         elif op == "bare_prefix":
             # units whose base-unit factors have all cancelled but which still carry a prefix ((k*m)/m,
             # Prefix*One), used as either operand of further arithmetic
